@@ -16,6 +16,9 @@ CLAIMED = {
  "C04": ("exploration", "deterministic simulation: bits-back histories on arbitrary words against the R-RANS reference",
          "Arbitrary word sequences (incl. zero / all-ones / trailing zero words, length 0) loaded as raw binary, decode k symbols with arbitrary models (any precision sequence), reloads in between, encode back in reverse; oracles: num_valid_bits exact, decode never errs, every decoded symbol and every intermediate state equals the textbook rANS reference, both raw-binary accessors return the original words and agree with each other.",
          "Trusted base: R-RANS reference (validated against the real coder on the fault-free tree and against published vectors), TableModel.", "DESIGN 3 C04"),
+ "C05": ("exploration", "deterministic simulation of representation (version) skew between producer, twin producer and consumer of one entropy model",
+         "Claimed in its observable form: per run one library-built model (uniform, categorical fast/perfect from f32/f64, fixed-point, leakily quantized Gaussian/Laplace/Cauchy/Binomial) is given to three parties in independently drawn representations (owner, view, lazy, to_generic_encoder_model, to_generic_decoder_model, to_generic_lookup_decoder_model, to_lookup_decoder_model, rebuilt from its own symbol_table, non-contiguous with identity relabelling); the two producers' coder states must be identical after every symbol and the consumer must recover the symbols, on ANS and range coders; sweep messages visit every symbol of the support. The pointwise table equality of the property's first sentence is only sampled through transmitted symbols.",
+         "Weakest fit of this technique (no fault or schedule; configuration skew only) - stated in DESIGN 3/4. Representations that exist for a model must be constructible (a constructor abort is reported).", "DESIGN 3 C05"),
  "C06": ("exploration", "deterministic simulation with refinement check against independent reference models (R-RANS, R-RANGE) at every step and export point",
          "Along every generated history the coder's head and bulk equal the textbook streaming-rANS reference after every operation, and every export equals the reference serialisation; range-coder half: sealed words equal the unbounded-precision carry-propagating reference under the documented sealing rule; plus the byte-exact vectors printed in the project's documentation.",
          "Trusted base: the two reference models (written from the published formulations: explicit L/b and while-renormalisation; big-integer low with ripple carry, no situation/held-back words).", "DESIGN 3 C06"),
@@ -54,7 +57,7 @@ NA = {
  "C15": "pure function of a weight vector (prefix-freeness, Kraft equality, optimality, tie-breaking of Huffman codebooks); no history or fault dimension; see DESIGN section 4",
  "C19": "pure function of constructor input (accept => valid, else fail cleanly); the only fault-injection aspect (garbage parameters must not cause UB) is handled under C20; see DESIGN section 4",
 }
-for pid in ["C05","C10","C20"]:
+for pid in ["C10","C20"]:
     if pid not in CLAIMED:
         PENDING[pid] = "check under construction in this round (design in DESIGN.md section 3); not claimed until its explorer is committed"
 
